@@ -147,6 +147,7 @@ def work(ident, prop, tier, tree):
             out["functions"].append({"qualname": q, "file": os.path.relpath(fi.path, tree), "lines": list(fi.lines),
                                      "sha256": fi.sha256})
         replayed = set()
+        replay_by_oid = {}
         # static (syntactic) checks attached to a contract, e.g. frame conditions of abstracted methods
         for kk2 in [k]:
             pass
@@ -198,6 +199,14 @@ def work(ident, prop, tier, tree):
                         {"reproduced": None, "detail": f"replay failed: {type(e).__name__}: {e}"}
                 rec["witness"] = w
                 rec["replay"] = rp
+                replay_by_oid[o.oid] = rp
+            if rec["status"] == "refuted" and getattr(k, "term_level", False) and replay_by_oid.get(o.oid, {}).get("reproduced") is False:
+                # the contract speaks about uninterpreted matrix terms (svd / qr / inv ... as opaque kernels): a "counter-model" of such an
+                # obligation only says that two terms are not syntactically forced to be equal - it is no input.  When the native stand-in
+                # (exact recovery on the real code) finds nothing either, the obligation is NOT a violation: it is undecided at this level and
+                # the contract is reported as bounded for this run (an algebraically equivalent rewrite of the kernel calls ends up here).
+                rec["status"] = "term-undecided"
+                rec["replay"] = replay_by_oid[o.oid]
             if len(out["obligations"]) < 3:
                 rec["smt2_head"] = o.smt2()[:600]
             out["obligations"].append(rec)
@@ -399,6 +408,14 @@ def main(argv=None):
         print(ln)
     for r in fell_back:
         print(f"BOUNDED-FALLBACK {r['ident']}: not decided deductively ({r['error'][:160]}); native stand-in found no failing input: {r['bounded'].get('bound', '')[:160]}")
+    term_und = {}
+    for r, o in all_obl:
+        if o["status"] == "term-undecided":
+            term_und.setdefault(r["ident"], []).append(o)
+    for ident, obs in term_und.items():
+        ids = sorted({o["id"].split("/", 1)[1] for o in obs})
+        print(f"BOUNDED-FALLBACK {ident}: {len(obs)} obligation(s) over uninterpreted matrix terms are no longer provable ({'; '.join(ids)[:200]}); "
+              f"they have no input-level counterexample and the native stand-in found no failing input: {str(obs[0].get('replay', {}).get('detail', ''))[:160]}")
     for r in errors:
         print(f"CHECKER-ERROR {r['ident']}: {r['error'][:1500]}")
     for r, o in unknown:
@@ -442,6 +459,7 @@ def main(argv=None):
                 "canaries_refuted": sum(1 for r in results for cn in r["canaries"] if cn["refuted"] > 0),
                 "canaries": [dict(cn, contract=r["ident"]) for r in results for cn in r["canaries"]],
                 "undecided": [o["id"] for _, o in unknown],
+                "term_level_undecided": sorted({o["id"] for obs in term_und.values() for o in obs}),
                 "bounded_standins": [dict(contract=r["ident"], reason=(r["error"] or r.get("bounded_reason", ""))[:300],
                                           **{k_: v for k_, v in r["bounded"].items() if k_ != "violations"},
                                           violations=len(r["bounded"]["violations"]),
